@@ -33,7 +33,7 @@ manifest = {
     "hooks": {
         "guard": "verif",
         "enable": "none: static analysis needs no instrumentation; no hook commits exist",
-        "baseline_off_cmd": "cd /repo && go test -json -vet=off -count=1 -timeout 25m ./...",
+        "baseline_off_cmd": "cd /repo && GOFLAGS=-mod=mod go test -json -vet=off -count=1 -timeout 25m ./...",
         "source_commits": [],
         "add_only": True,
     },
